@@ -34,8 +34,14 @@ Inductive eres := EReply (s : string) | ERaises.
 Record eobs := mkEO { e_res : eres; e_calls : list (site * option string); e_llm : nat }.
 
 Inductive version := V1 | V2.
+(* cc_user / cc_llm: texts of the turns (user message; LLM bot message in v1, generation action in
+   v2); turns beyond the list use the default marker texts *)
 Record ccase := mkCC { cc_version : version; cc_cfg : vcfg; cc_turns : nat;
-                       cc_script : list (nat * site * nat * outcome); cc_exp : list eobs }.
+                       cc_script : list (nat * site * nat * outcome);
+                       cc_user : list string; cc_llm : list string; cc_exp : list eobs }.
+
+Definition text_of (l : list string) (d : nat -> string) (t : nat) : string :=
+  match nth_error l t with Some s => s | None => d t end.
 
 Definition ostr_beq (a b : option string) : bool :=
   match a, b with Some x, Some y => String.eqb x y | None, None => true | _, _ => false end.
@@ -58,8 +64,10 @@ Definition obs_matches (check_llm : bool) (e : eobs) (o : obs) : bool :=
 
 Definition model_conv (c : ccase) : list obs :=
   match cc_version c with
-  | V1 => fst (conv_v1_now (script_of (cc_script c)) user_text_c llm_text_v1 refusal_c (cc_cfg c) 0 (cc_turns c) [])
-  | V2 => fst (conv_v2_now (script_of (cc_script c)) user_text_c llm_text_v2 refusal_c (cc_cfg c) 0 (cc_turns c) (mkS2 false false))
+  | V1 => fst (conv_v1_now (script_of (cc_script c)) (text_of (cc_user c) user_text_c) (text_of (cc_llm c) llm_text_v1)
+                           refusal_c (cc_cfg c) 0 (cc_turns c) [])
+  | V2 => fst (conv_v2_now (script_of (cc_script c)) (text_of (cc_user c) user_text_c) (text_of (cc_llm c) llm_text_v2)
+                           refusal_c (cc_cfg c) 0 (cc_turns c) (mkS2 false false))
   end.
 
 Fixpoint all2 {A B} (f : A -> B -> bool) (a : list A) (b : list B) : bool :=
